@@ -3,6 +3,7 @@ package main
 import (
 	"fmt"
 	"go/token"
+	"go/types"
 	"sort"
 	"strings"
 
@@ -21,7 +22,7 @@ func init() {
 	register("C09",
 		"Structural necessary conditions of C09 decided from /repo's SSA: (siblings) at each Require{Tree,Tag}Size call site the size-affecting updates executed when the referent is already known equal, edge by edge and count by count, those executed by the deferred listener; (pending) the branch that registers a listener increments the record's pending counter exactly once and the immediate branch not at all, the listener decrements it exactly once and then calls the maybe-finalize step, initialisation ends in that step on every non-error path, and finalisation happens only under pending==0 followed by notification of every listener; (single-consumer) see C17.confinement. Not decided: invariance under root order, timestamps and storage layout (relations between runs).",
 		[]string{"field-based heap model", "listeners are invoked with the final size of the referent (C01.once)"},
-		ruleC09Siblings, ruleC09Pending, ruleC09FinalOnly, ruleC09Order)
+		ruleC09Siblings, ruleC09Pending, ruleC09FinalOnly, ruleC09Order, ruleC09Roots, ruleC09PendingWidth)
 }
 
 // ---------------- C02 ----------------
@@ -509,8 +510,10 @@ func ruleC09Siblings(c *Ctx) {
 						continue
 					}
 					for _, in := range b.Instrs {
-						if ed, ok := e.BySite[in]; ok && ed.Counter {
-							keys[ed.Key()] = true
+						for _, ed := range e.AllBySite[in] {
+							if ed.Counter {
+								keys[ed.Key()] = true
+							}
 						}
 						if call, ok := in.(*ssa.Call); ok {
 							if cal := call.Call.StaticCallee(); cal != nil && c.inRuleScope(cal) && len(cal.Blocks) > 0 && !mfSkip[cal] {
@@ -826,8 +829,10 @@ func finalOnly(c *Ctx, rule string, only map[string]bool, floor int) {
 			}
 			seen[f] = true
 			allInstrs(f, func(in ssa.Instruction) {
-				if ed, ok := e.BySite[in]; ok && ed.Counter {
-					D[ed.Target] = true
+				for _, ed := range e.AllBySite[in] {
+					if ed.Counter {
+						D[ed.Target] = true
+					}
 				}
 				if call, ok := in.(*ssa.Call); ok {
 					if cal := call.Call.StaticCallee(); cal != nil && c.inRuleScope(cal) && len(cal.Blocks) > 0 && !mf[cal] {
@@ -896,3 +901,61 @@ func ruleC09Order(c *Ctx) {
 	ruleC03Reverse(c)
 	ruleC03NoSilentMiss(c)
 }
+
+// ruleC09Roots: independence from the order of the roots needs every walked
+// root to be fed, whatever precedes it (C01.roots, reported under C09's name).
+func ruleC09Roots(c *Ctx) {
+	c.RuleAlias = map[string]string{"C01.roots": "C09.roots"}
+	defer func() { c.RuleAlias = nil }()
+	ruleC01Roots(c)
+}
+
+// ruleC09PendingWidth: a pending counter that is incremented inside a loop
+// (once per still-unknown subtree of a tree) must be wide enough for any
+// number of entries a tree held in memory can have; a narrow integer wraps,
+// passes through zero early and the record is finalised twice.
+func ruleC09PendingWidth(c *Ctx) { pendingWidth(c, "C09.pending") }
+
+func pendingWidth(c *Ctx, rule string) {
+	pv := c.pendingVars()
+	for v := range pv {
+		inLoop := false
+		for _, f := range c.ModFns {
+			loops := loopsOf(f)
+			allInstrs(f, func(in ssa.Instruction) {
+				st, ok := in.(*ssa.Store)
+				if !ok {
+					return
+				}
+				fa, ok := st.Addr.(*ssa.FieldAddr)
+				if !ok || fieldOfAddr(fa).Var != v {
+					return
+				}
+				if bo, ok := st.Val.(*ssa.BinOp); ok && bo.Op == token.ADD && innermostLoop(loops, st.Block()) != nil {
+					inLoop = true
+				}
+			})
+		}
+		b, ok := v.Type().Underlying().(*types.Basic)
+		if !ok {
+			c.undecided(rule, "width:"+v.Name()+"@"+typeNameOfVarOwner(v), token.NoPos, "", "the pending counter is not an integer")
+			continue
+		}
+		wide := false
+		switch b.Kind() {
+		case types.Int, types.Int32, types.Int64, types.Uint, types.Uint32, types.Uint64, types.Uintptr:
+			wide = true
+		}
+		key := "width:" + v.Pkg().Name() + "." + v.Name() + ":" + b.Name()
+		switch {
+		case !inLoop:
+			c.hold(rule, key, v.Pos(), "incremented at most once per record; any integer width is enough")
+		case wide:
+			c.hold(rule, key, v.Pos(), "incremented once per unresolved entry of a tree; "+b.Name()+" cannot wrap for a tree that fits in memory")
+		default:
+			c.violate(rule, key, v.Pos(), "", "the pending counter is incremented once per still-unknown entry of a tree but is only an "+b.Name()+": a tree with more unresolved subtrees than that wraps the counter through zero, so the tree is finalised (and counted) twice when its subtrees are delivered after it")
+		}
+	}
+}
+
+func typeNameOfVarOwner(v *types.Var) string { return v.Pkg().Name() }
